@@ -2,6 +2,7 @@ package props
 
 import (
 	"fmt"
+	"path"
 	"unicode/utf8"
 
 	"golang.org/x/sys/unix"
@@ -384,6 +385,15 @@ func (g *Gen) PriorDest(listed []listedSrc, allowObstacles bool, extras int) fst
 					taken[l.Name] = true
 					blocked[l.Name] = true
 				}
+			case 2:
+				if e.Type == "d" && allowObstacles {
+					// a symlink to a directory in the way of a directory: whoever
+					// looks at it with stat instead of lstat sees a directory
+					d.Type, d.Target, d.Perm = "l", ".", 0o777
+					t.Entries = append(t.Entries, d)
+					taken[l.Name] = true
+					blocked[l.Name] = true
+				}
 			}
 			continue
 		}
@@ -422,7 +432,18 @@ func (g *Gen) PriorDest(listed []listedSrc, allowObstacles bool, extras int) fst
 			if !allowObstacles {
 				continue
 			}
-			switch g.R.Intn(4) {
+			switch g.R.Intn(5) {
+			case 4:
+				// a symlink to a twin of the source file (same size, content and
+				// mtime): through stat it looks like an up-to-date regular file
+				twin := fstree.Entry{Path: fstree.Name(path.Join(path.Dir(l.Name), ".twin-"+path.Base(l.Name))), Type: "f", Perm: e.Perm, Mtime: e.Mtime, MtimeNs: e.MtimeNs, Content: e.Content}
+				if len(path.Base(l.Name)) < 200 && !taken[string(twin.Path)] {
+					t.Entries = append(t.Entries, twin)
+					taken[string(twin.Path)] = true
+					d.Type, d.Target, d.Perm = "l", fstree.Name(".twin-"+path.Base(l.Name)), 0o777
+				} else {
+					d.Type = "fifo"
+				}
 			case 0:
 				d.Type, d.Target, d.Perm = "l", fstree.Name("dangling-"+g.NameComponent(true)), 0o777
 			case 1:
